@@ -116,6 +116,10 @@ class St:
         """returns the refined state, or None if `term == val` contradicts a fact"""
         while isinstance(term, tuple) and term[:2] == ('unop', 'not'):
             term, val = term[2], not val
+        n = _len_test(term)
+        if n is not None:
+            # len(x) == 0, len(x) > 0 ... speak about the emptiness of x
+            term, val = n[0], (val if n[1] else not val)
         cur = truth(term, self)
         if cur is not None:
             return self if cur == val else None
@@ -123,6 +127,16 @@ class St:
         f = dict(self.facts)
         f[term] = val
         st = self._new(facts=f)
+        # a compound fact recorded earlier may now be contradicted by its parts
+        for k, v in self.facts.items():
+            if k[0] == 'boolop':
+                parts = [truth(x, st) for x in k[2]]
+                if k[1] == 'and':
+                    r = False if any(p is False for p in parts) else (True if all(p is True for p in parts) else None)
+                else:
+                    r = True if any(p is True for p in parts) else (False if all(p is False for p in parts) else None)
+                if r is not None and r != v:
+                    return None
         # decompose conjunctions / disjunctions that are now decided
         if term[0] == 'boolop':
             if term[1] == 'and' and val:
@@ -161,6 +175,12 @@ def truth(term, st):
         return True
     if st is not None and term in st.facts:
         return st.facts[term]
+    if k == 'cmp' and st is not None:
+        n = _len_test(term)
+        if n is not None:
+            v = truth(n[0], st)
+            if v is not None:
+                return v if n[1] else (not v)
     if k == 'unop' and term[1] == 'not':
         v = truth(term[2], st)
         return None if v is None else (not v)
@@ -204,6 +224,26 @@ def truth(term, st):
             if all(v is False for v in vals):
                 return False
         return None
+    return None
+
+
+def _len_test(term):
+    """(x, polarity) when term is a comparison of len(x) with 0 / 1 that means
+    `x is non-empty` (polarity True) or `x is empty` (polarity False)"""
+    if not (isinstance(term, tuple) and len(term) == 4 and term[0] == 'cmp'):
+        return None
+    op, l, r = term[1], term[2], term[3]
+    flip = {'<': '>', '>': '<', '<=': '>=', '>=': '<=', '==': '==', '!=': '!='}
+    if l[0] == 'const' and r[0] == 'call':
+        l, r, op = r, l, flip.get(op)
+    if not (l[0] == 'call' and l[1] == 'len' and len(l[2]) == 1 and r[0] == 'const'
+            and isinstance(r[1], int) and not isinstance(r[1], bool)):
+        return None
+    x, c = l[2][0], r[1]
+    if (op, c) in (('==', 0), ('<', 1), ('<=', 0)):
+        return x, False
+    if (op, c) in (('!=', 0), ('>', 0), ('>=', 1)):
+        return x, True
     return None
 
 
